@@ -1050,30 +1050,18 @@ impl ASN1Value {
             | (ASN1Type::Set(_), ASN1Value::ObjectIdentifier(val))
             | (ASN1Type::Sequence(_), ASN1Value::ObjectIdentifier(val)) => {
                 // Object identifier values and sequence-like values cannot be properly distinguished
-                let mut pseudo_arcs = std::mem::take(&mut val.0);
-                let struct_value = pseudo_arcs
-                    .chunks_mut(2)
-                    .map(|chunk| {
-                        let err = || GrammarError {
-                            pdu: None,
-                            details:
-                                "Failed to interpret object identifier value as sequence value!"
-                                    .into(),
-                            kind: GrammarErrorType::LinkerError,
-                        };
-                        if let [id, val] = chunk {
-                            val.number
-                                .and_then(|n| <u128 as TryInto<i128>>::try_into(n).ok())
-                                .ok_or_else(err)
-                                .map(|number| {
-                                    (id.name.take(), Box::new(ASN1Value::Integer(number)))
-                                })
-                        } else {
-                            Err(err())
-                        }
-                    })
-                    .collect::<Result<Vec<_>, _>>()?;
-                *self = ASN1Value::SequenceOrSet(struct_value);
+                *self = Self::object_identifier_as_struct_value(val)?;
+                self.link_with_type(tlds, ty, type_name)
+            }
+            (ASN1Type::SetOf(_), ASN1Value::LinkedNestedValue { value, .. })
+            | (ASN1Type::SequenceOf(_), ASN1Value::LinkedNestedValue { value, .. })
+            | (ASN1Type::Set(_), ASN1Value::LinkedNestedValue { value, .. })
+            | (ASN1Type::Sequence(_), ASN1Value::LinkedNestedValue { value, .. })
+                if matches![**value, ASN1Value::ObjectIdentifier(_)] =>
+            {
+                if let ASN1Value::ObjectIdentifier(val) = &mut **value {
+                    **value = Self::object_identifier_as_struct_value(val)?;
+                }
                 self.link_with_type(tlds, ty, type_name)
             }
             (ASN1Type::Set(s), ASN1Value::SequenceOrSet(val))
@@ -1473,6 +1461,34 @@ impl ASN1Value {
             }
             _ => Ok(None),
         }
+    }
+
+    /// Re-interprets a value that was lexed as an object identifier value
+    /// as a sequence-like value with integer members, e.g. `{ x 1 }`
+    fn object_identifier_as_struct_value(
+        val: &mut ObjectIdentifierValue,
+    ) -> Result<ASN1Value, GrammarError> {
+        let mut pseudo_arcs = std::mem::take(&mut val.0);
+        let struct_value = pseudo_arcs
+            .chunks_mut(2)
+            .map(|chunk| {
+                let err = || GrammarError {
+                    pdu: None,
+                    details: "Failed to interpret object identifier value as sequence value!"
+                        .into(),
+                    kind: GrammarErrorType::LinkerError,
+                };
+                if let [id, val] = chunk {
+                    val.number
+                        .and_then(|n| <u128 as TryInto<i128>>::try_into(n).ok())
+                        .ok_or_else(err)
+                        .map(|number| (id.name.take(), Box::new(ASN1Value::Integer(number))))
+                } else {
+                    Err(err())
+                }
+            })
+            .collect::<Result<Vec<_>, _>>()?;
+        Ok(ASN1Value::SequenceOrSet(struct_value))
     }
 
     fn link_array_like(
